@@ -415,6 +415,10 @@ def run(ctx):
         ne = extra.check_own_then_free(ck, prog, config, 'C17-e', units=('dl/dl.c', 'dl/multipart.c', 'dl/range.c'))
         ck.min_instances('functions storing a local pointer into a field and calling free()', ne, 1)
         extra.check_dl_reset(ck, prog, config, 'C17-e')
+        # ---- f  the callbacks' fixed-size scratch arrays: every transfer stays inside the array
+        from ..rules import arrayext
+        na = arrayext.check_array_extents(ck, prog, config, 'C17-f', scope='lib', units=('dl/dl.c', 'dl/multipart.c', 'dl/range.c'))
+        ck.min_instances('(call, fixed-size array) sites below the download callbacks', na, 2)
         # ---- d
         dlrules.arming_guard(ck, prog, config, 'C17-d')
         dlrules.confinement(ck, prog, config, 'C17-d')
